@@ -22,7 +22,10 @@ SETS = [
 # one language in scripts of different direction (what CLDR assigns depends on the whole identifier, not the language)
 MIXED = [["az", "az-Arab", "en"], ["pa", "pa-Arab", "pa-Guru"], ["ks-Deva", "ks", "ur"], ["sd", "sd-Deva", "sd-Arab", "hi"], ["ms-Arab", "ms", "id"],
          ["tg", "tg-Arab", "fa-AF"], ["ku", "ku-Arab", "ckb"], ["ha-Arab", "ha", "ha-NE"], ["he-Latn", "he", "yi-Latn"], ["en-Arab", "en", "ar-Latn", "ar"]]
-SETS = SETS + MIXED
+# configured names that are valid identifiers but not in canonical casing / separators: every representation keeps the name as
+# configured, only the ICU locale / language identifier are the canonical forms
+NONCANON = [["en", "pt-br", "zh-hant"], ["fr", "en-us", "zh-hant-tw", "de-de-1996"], ["es", "sr-latn-rs", "pt-PT"]]
+SETS = SETS + NONCANON + MIXED
 RTL = {"ar", "he", "fa", "ur", "yi", "ps", "sd", "ug", "dv"}
 LTR = {"en", "fr", "ja", "ru", "zh", "de", "it", "pt", "es", "pl", "ko", "nl", "af", "sr"}
 
@@ -108,7 +111,7 @@ def run(tier, seed, replay=None):
     ncrates = 1 if tier == "quick" else 6
     crates = []
     for ci in range(ncrates):
-        sets = [list(s) for s in (SETS if tier == "thorough" else rng.sample(SETS[:-len(MIXED)], 6) + rng.sample(MIXED, 5))]
+        sets = [list(s) for s in (SETS if tier == "thorough" else rng.sample(SETS[:-len(MIXED) - len(NONCANON)], 5) + rng.sample(NONCANON, 2) + rng.sample(MIXED, 4))]
         for s in sets:
             rng.shuffle(s)
         main_set = sets[0]
